@@ -240,6 +240,74 @@ func runArgSockets(c scenario) *rp.Fail {
 	return nil
 }
 
+// flood-already-running: datagrams stream to the client's fixed bind port BEFORE the call opens its socket and for as long as it
+// lasts (controllers that were told to send their events there, a stray flood aimed at the well-known port), about two a
+// millisecond. The controller answers the broadcast-path request after ReplyPct % of the timeout: the call returns its reply
+// within the timeout.
+func runFloodRunning(c scenario, scale int) *rp.Fail {
+	T := time.Duration(c.TimeoutMs*scale) * time.Millisecond
+	f := farm.New()
+	defer f.Close()
+	serial := uint32(405419896)
+	ctrl, err := f.UDP([4]byte{127, 0, 8, 18}, 0, farm.Script(func(r farm.Received) []farm.Action {
+		if len(r.Data) != 64 || spec.LE32(r.Data[4:]) != serial {
+			return nil
+		}
+		return []farm.Action{{Delay: T * time.Duration(c.ReplyPct) / 100, Data: reply(r.Data)}}
+	}))
+	if err != nil {
+		return nil
+	}
+	port, err := farm.FreePort([4]byte{127, 0, 0, 1})
+	if err != nil {
+		return nil
+	}
+	stop := make(chan struct{})
+	var wg sync.WaitGroup
+	for s := 0; s < 2; s++ {
+		conn, err := net.DialUDP("udp4", nil, &net.UDPAddr{IP: net.IPv4(127, 0, 0, 1), Port: int(port)})
+		if err != nil {
+			continue
+		}
+		wg.Add(1)
+		go func(s int) {
+			defer wg.Done()
+			defer conn.Close()
+			junk := reply(spec.Request(call("GetTime", 303986753+uint32(s)).Call)) // a well-formed reply of ANOTHER controller
+			for i := 0; ; i++ {
+				select {
+				case <-stop:
+					return
+				default:
+				}
+				conn.Write(junk) // (before the client has bound the port this earns an ICMP error, which the sender ignores)
+				time.Sleep(time.Millisecond)
+			}
+		}(s)
+	}
+	defer func() { close(stop); wg.Wait() }()
+	time.Sleep(30 * time.Millisecond)
+	cfg := hook.ClientCfg{TimeoutMs: int(T / time.Millisecond), BindIP: [4]byte{127, 0, 0, 1}, BindPort: port, Debug: c.Debug, HasBroadcast: true, BroadcastIP: [4]byte{127, 0, 8, 18}, BroadcastPort: ctrl.Addr.Port()}
+	u := hook.Real(cfg)
+	for i := 0; i < 3; i++ {
+		done := make(chan api.Result, 1)
+		t0 := time.Now()
+		go func() { done <- api.Invoke(u, call(c.Op, serial)) }()
+		select {
+		case res := <-done:
+			if res.Panic != nil {
+				return rp.Failf("flood-already-running/panic", "%s panicked: %v", c.Op, res.Panic)
+			}
+			if res.Err != nil {
+				return rp.Failf("flood-already-running/call-failed", "call %d: %s on the broadcast path failed after %v (timeout %v) although its controller answered %d %% of the timeout after being asked - datagrams of other controllers were streaming to the bind port before and during the call: %v", i+1, c.Op, time.Since(t0), T, c.ReplyPct, res.Err)
+			}
+		case <-time.After(2*T + 3*time.Second):
+			return rp.Failf("flood-already-running/hang", "call %d: %s has not returned %v after it was started (timeout %v); datagrams were streaming to the bind port before the call", i+1, c.Op, 2*T+3*time.Second, T)
+		}
+	}
+	return nil
+}
+
 func runPeerHolds(c scenario, scale int) *rp.Fail {
 	T := time.Duration(c.TimeoutMs*scale) * time.Millisecond
 	f := farm.New()
@@ -578,6 +646,8 @@ func runScenario(c scenario, scale int) *rp.Fail {
 		return runGenerous(c)
 	case "argument-sockets":
 		return runArgSockets(c)
+	case "flood-already-running":
+		return runFloodRunning(c, scale)
 	}
 	u := hook.Real(cfg)
 	t0 := time.Now()
@@ -725,7 +795,7 @@ func runSendFails(c scenario, scale int) *rp.Fail {
 }
 
 func checkScenario(c scenario) *rp.Fail {
-	if c.Kind == "port-released" || c.Kind == "send-fails" || c.Kind == "late-wrong-reply" || c.Kind == "tcp-peer-holds-connection" || c.Kind == "no-descriptors" || c.Kind == "multicast-broadcast" || c.Kind == "generous-timeout" || c.Kind == "argument-sockets" {
+	if c.Kind == "port-released" || c.Kind == "send-fails" || c.Kind == "late-wrong-reply" || c.Kind == "tcp-peer-holds-connection" || c.Kind == "no-descriptors" || c.Kind == "multicast-broadcast" || c.Kind == "generous-timeout" || c.Kind == "argument-sockets" || c.Kind == "flood-already-running" {
 		ev.Case("scenario/"+c.Kind, true, fmt.Sprintf("%+v", c))
 	} else {
 		ev.Case(fmt.Sprintf("scenario/%s/reply-%s", c.Kind, map[bool]string{true: "in-time", false: "after-deadline"}[c.ReplyPct <= 80]), true, fmt.Sprintf("%+v", c))
@@ -770,6 +840,7 @@ func sweepScenarios(yield func(scenario) bool) {
 	}
 	cases = append(cases, scenario{Kind: "multicast-broadcast", Op: "GetTime", TimeoutMs: 400}, scenario{Kind: "multicast-broadcast", Op: "GetDevices", TimeoutMs: 300, Debug: true})
 	cases = append(cases, scenario{Kind: "no-descriptors", Op: "GetTime", TimeoutMs: 300}, scenario{Kind: "no-descriptors", Op: "OpenDoor", TimeoutMs: 200, Debug: true})
+	cases = append(cases, scenario{Kind: "flood-already-running", Op: "GetTime", TimeoutMs: 800, ReplyPct: 15}, scenario{Kind: "flood-already-running", Op: "OpenDoor", TimeoutMs: 600, ReplyPct: 40, Debug: true})
 	for i, op := range []string{"SetListener", "SetAddress", "SetListener"} {
 		cases = append(cases, scenario{Kind: "argument-sockets", Op: op, Path: []string{"udp", "tcp", "broadcast"}[i], TimeoutMs: 3000, Debug: i == 2})
 	}
